@@ -294,3 +294,99 @@ class Translator(object):
                "deriving Repr, DecidableEq\n")
         return (header + "import YowsupVerif.Model.PyPrelude\nnamespace %s\nopen Yow\n\n%s\n%s\nend %s\n"
                 % (lean_ns, env, "\n".join(defs), lean_ns))
+
+
+# ---------------------------------------------------------------------------------------------------------------------------------------------
+# Second mode: PURE integer functions (no state): methods whose body is a sequence of `if <test>: return <expr>` / `return <expr>` / `raise`,
+# over integer parameters, possibly returning the result of another method of the same class.  Result type `Py.Res` (Model/PyPrelude.lean):
+# raised | none (fell off the end: Python's None) | ret (v : Int).  Tests: comparisons, `x in range(a, b)`, `x in (a, b, ...)`, and / or / not.
+class PureFunctions(object):
+    def __init__(self, source, classname, prefix):
+        self.tree = ast.parse(source)
+        self.cls = next(n for n in ast.walk(self.tree) if isinstance(n, ast.ClassDef) and n.name == classname)
+        self.prefix = prefix
+        self.names = set()
+
+    def iexpr(self, e, params):
+        if isinstance(e, ast.Constant) and isinstance(e.value, int) and not isinstance(e.value, bool):
+            return "(%d : Int)" % e.value
+        if isinstance(e, ast.UnaryOp) and isinstance(e.op, ast.USub) and isinstance(e.operand, ast.Constant) and isinstance(e.operand.value, int):
+            return "(-%d : Int)" % e.operand.value
+        if isinstance(e, ast.Name) and e.id in params:
+            return e.id
+        if isinstance(e, ast.BinOp) and isinstance(e.op, (ast.Add, ast.Sub)):
+            return "(%s %s %s)" % (self.iexpr(e.left, params), "+" if isinstance(e.op, ast.Add) else "-", self.iexpr(e.right, params))
+        raise Unsupported("integer expression %s" % ast.unparse(e))
+
+    def test(self, e, params):
+        if isinstance(e, ast.Compare) and len(e.ops) > 1:
+            # a chained comparison a <= n <= b: the conjunction of its links
+            terms, left = [], e.left
+            for op, right in zip(e.ops, e.comparators):
+                terms.append(self.test(ast.Compare(left=left, ops=[op], comparators=[right]), params))
+                left = right
+            return "(" + " ∧ ".join(terms) + ")"
+        if isinstance(e, ast.Compare) and len(e.ops) == 1:
+            a, op, b = e.left, e.ops[0], e.comparators[0]
+            if isinstance(op, ast.In):
+                x = self.iexpr(a, params)
+                if (isinstance(b, ast.Call) and isinstance(b.func, ast.Name) and b.func.id == "range" and len(b.args) == 2 and not b.keywords):
+                    return "(%s ≤ %s ∧ %s < %s)" % (self.iexpr(b.args[0], params), x, x, self.iexpr(b.args[1], params))
+                if isinstance(b, (ast.Tuple, ast.List)) and b.elts:
+                    return "(" + " ∨ ".join("%s = %s" % (x, self.iexpr(v, params)) for v in b.elts) + ")"
+                raise Unsupported("membership test %s" % ast.unparse(e))
+            sym = {ast.Lt: "<", ast.LtE: "≤", ast.Gt: ">", ast.GtE: "≥", ast.Eq: "=", ast.NotEq: "≠"}.get(type(op))
+            if sym is None:
+                raise Unsupported("comparison %s" % ast.unparse(e))
+            return "(%s %s %s)" % (self.iexpr(a, params), sym, self.iexpr(b, params))
+        if isinstance(e, ast.BoolOp):
+            return "(" + (" ∧ " if isinstance(e.op, ast.And) else " ∨ ").join(self.test(v, params) for v in e.values) + ")"
+        if isinstance(e, ast.UnaryOp) and isinstance(e.op, ast.Not):
+            return "(¬ %s)" % self.test(e.operand, params)
+        raise Unsupported("test %s" % ast.unparse(e))
+
+    def result(self, e, params):
+        if e is None:
+            return "Py.Res.none"
+        if (isinstance(e, ast.Call) and isinstance(e.func, ast.Attribute) and isinstance(e.func.value, ast.Name) and e.func.value.id == "self"
+                and not e.keywords):
+            callee = e.func.attr
+            if callee not in self.names:
+                raise Unsupported("call of %s, which is not one of the translated functions (or comes later)" % callee)
+            return "(%s%s %s)" % (self.prefix, callee, " ".join(self.iexpr(a, params) for a in e.args))
+        return "(Py.Res.ret %s)" % self.iexpr(e, params)
+
+    def body(self, stmts, params):
+        """statements -> a Lean term of type Py.Res; returns (term, falls_through)"""
+        if not stmts:
+            return "Py.Res.none"
+        s, rest = stmts[0], stmts[1:]
+        if isinstance(s, ast.Expr) and isinstance(s.value, ast.Constant) and isinstance(s.value.value, str):
+            return self.body(rest, params)
+        if isinstance(s, ast.Pass):
+            return self.body(rest, params)
+        if isinstance(s, ast.Return):
+            return self.result(s.value, params)
+        if isinstance(s, ast.Raise):
+            return "Py.Res.raised"
+        if isinstance(s, ast.If):
+            # every branch that does not end in return / raise continues with the statements after the `if`
+            def ends(b):
+                return bool(b) and isinstance(b[-1], (ast.Return, ast.Raise))
+            then = self.body(s.body if ends(s.body) else s.body + rest, params)
+            other = self.body((s.orelse if ends(s.orelse) else s.orelse + rest) if s.orelse else rest, params)
+            return "(if %s then %s else %s)" % (self.test(s.test, params), then, other)
+        raise Unsupported("statement %s" % ast.unparse(s).split("\n")[0])
+
+    def translate(self, names):
+        out = []
+        for name in names:
+            fn = next(n for n in self.cls.body if isinstance(n, ast.FunctionDef) and n.name == name)
+            params = [a.arg for a in fn.args.args[1:]]
+            if fn.args.defaults or fn.args.vararg or fn.args.kwarg:
+                raise Unsupported("%s has default / variable arguments" % name)
+            term = self.body(fn.body, params)
+            out.append("/-- `%s.%s` (line %d of the source) -/\ndef %s%s %s: Py.Res :=\n  %s\n"
+                       % (self.cls.name, name, fn.lineno, self.prefix, name, "".join("(%s : Int) " % p for p in params), term))
+            self.names.add(name)
+        return "\n".join(out)
